@@ -101,7 +101,8 @@ type SchedStats struct {
 	RetryRounds  int64  `json:"retry_rounds,omitempty"`
 	Rendezvous   int64  `json:"rendezvous,omitempty"` // unbuffered channel hand-offs
 	AtomicPoints int64  `json:"atomic_points,omitempty"`
-	Hash         uint64 `json:"hash"` // FNV over (from,to,site) of every hand-over
+	SlotPressure int64  `json:"slot_pressure,omitempty"` // spawns that had to wait for a task slot
+	Hash         uint64 `json:"hash"`                    // FNV over (from,to,site) of every hand-over
 	Truncated    bool   `json:"decisions_truncated,omitempty"`
 	Abort        int    `json:"abort,omitempty"`
 }
@@ -152,6 +153,7 @@ var (
 	waitSeq         int64
 	selRand         Rand // choice among the ready cases of a select
 	atomicDemotions int
+	slotPressure    bool
 	// consecutive block() calls since the last event that can unblock somebody
 	sinceProgress int64
 
@@ -191,6 +193,7 @@ func Start(cfg *SchedConfig) {
 	}
 	selRand = Rand{s: mix64(cfg.PrioSeed ^ cfg.RWSeed*0x9e3779b97f4a7c15 ^ 0x73656c656374)}
 	waitSeq, sinceProgress, atomicDemotions = 0, 0, 0
+	slotPressure = false
 	hiSlot = 1
 	for i := range wgKeys {
 		wgKeys[i] = 0
@@ -648,6 +651,10 @@ func block(site int32) {
 		// not be reported as a deadlock): only when two full rounds of retries
 		// pass without any progress is it one.
 		if sinceProgress > 2*int64(liveTasks)+2 {
+			if slotPressure {
+				abortWhy = "no free task slot and no task can end"
+				abort(AbortInternal)
+			}
 			abort(AbortDeadlock)
 		}
 		for i := int32(0); i < hiSlot; i++ {
@@ -709,9 +716,22 @@ func Spawn() int32 {
 		s = hiSlot
 		hiSlot++
 	}
-	if s < 0 {
-		abortWhy = "no free task slot"
-		abort(AbortInternal)
+	for s < 0 {
+		// Every slot is taken. Under unfair schedules tasks that have done their work
+		// but not yet returned (go-critic's workers sit in their deferred function after
+		// the barrier opened) pile up over a long history. The spawner steps aside until
+		// one of them has ended; if nobody can end, that is harness trouble, not a deadlock
+		// of the program.
+		slotPressure = true
+		stats.SlotPressure++
+		block(-21)
+		slotPressure = false
+		for i := int32(0); i < hiSlot; i++ {
+			if slotState[i] == stFree {
+				s = i
+				break
+			}
+		}
 	}
 	ensurePipe(s)
 	slotState[s] = stEmbryo
